@@ -1,7 +1,53 @@
 import SoundeventModel.Ops.Common
 import SoundeventModel.Ops.C09
+import SoundeventModel.DetectionGeo
 namespace SE.Ops.C08
 open Lean SE SE.Metrics SE.Detection SE.Ops.C09
+
+/-! geometry layer: a sound event travels with its geometry (`null` or `{"type", "coordinates"}`) -/
+
+def getOptGeom (j : Json) (k : String) : Except String (Option Geom) :=
+  match fldOpt j k with
+  | none => .ok none
+  | some g => do return some (← getGeom g)
+
+def getGPred (j : Json) : Except String GPred := do
+  let g ← getOptGeom j "geom"
+  return ({ id := ← fldNat j "id", hasGeom := g.isSome, tags := ← getPredTags (← fld j "tags") }, g)
+
+def getGAnn (j : Json) : Except String GAnn := do
+  let g ← getOptGeom j "geom"
+  return ({ id := ← fldNat j "id", hasGeom := g.isSome, tags := ← getTagList (← fld j "tags") }, g)
+
+def getPairs (j : Json) : Except String (List (Nat × Nat)) := do
+  (← getArr j).mapM (fun p => do
+    match ← getNatList p with
+    | [a, b] => return (a, b)
+    | _ => .error "pair: expected [row, column]")
+
+def getRows (j : Json) : Except String (List (List Rat)) := do (← getArr j).mapM getRatList
+
+def getGeoPreds (j : Json) : Except String (List (Nat × GeoClip)) := do
+  (← getArr j).mapM (fun c => do
+    return (← fldNat c "clip",
+      { events := ← (← getArr (optFld c "events" (arrJ []))).mapM getGPred,
+        pairs := ← getPairs (optFld c "pairs" (arrJ [])),
+        measured := ← getRows (optFld c "measured" (arrJ [])) }))
+
+def getGeoAnns (j : Json) : Except String (List (Nat × List GAnn)) := do
+  (← getArr j).mapM (fun c => do
+    return (← fldNat c "clip", ← (← getArr (optFld c "events" (arrJ []))).mapM getGAnn))
+
+def getOptGeoms (j : Json) : Except String (List (Option Geom)) := do
+  (← getArr j).mapM (fun g => match g with
+    | .null => pure none
+    | g => do return some (← getGeom g))
+
+def verdictName : PairVerdict → String
+  | .overlap => "overlap"
+  | .disjoint => "disjoint"
+  | .noGeometry => "no-geometry"
+  | .unknown => "unknown"
 
 def handle (op : String) (a : Json) : Except String Json := do
   match op with
@@ -28,6 +74,40 @@ def handle (op : String) (a : Json) : Except String Json := do
       | [s, t] => return (← getOptNat s, ← getOptNat t)
       | _ => .error "match: expected [src, tgt]")
     return boolJ (holdsCoverB (← fldNat a "n_pred") (← fldNat a "n_ann") ms)
+  | "detection_geo" =>
+    -- `sound_event_detection` with the matcher inside the model: geometries, the pairs the assignment solver
+    -- chose and (for types without closed form) measured affinities are part of the request
+    let C ← fldNat a "C"
+    return exceptJ evalJ (soundEventDetectionGeo C (← fldRat a "tb") (← fldRat a "fb")
+      (← getGeoPreds (← fld a "predictions")) (← getGeoAnns (← fld a "annotations")))
+  | "judge_pairs" =>
+    -- "a prediction is paired with an annotation only if their geometries overlap", decided by end-point
+    -- comparisons on the matches the code really returned (C08_judge_sound)
+    let tb ← fldRat a "tb"
+    let pg ← getOptGeoms (← fld a "pred_geoms")
+    let ag ← getOptGeoms (← fld a "ann_geoms")
+    let ms ← (← fldArr a "matches").mapM (fun j => do
+      match ← getArr j with
+      | [s, t] => return (← getOptNat s, ← getOptNat t)
+      | _ => .error "match: expected [src, tgt]")
+    let vs := ms.filterMap (fun m => match m.1, m.2 with
+      | some i, some j => some (arrJ [natJ i, natJ j, Json.str (verdictName (judgePair tb pg ag i j))])
+      | _, _ => none)
+    return Json.mkObj [("ok", boolJ (judgePairs tb pg ag ms)), ("pairs", arrJ vs)]
+  | "affinity_cf" =>
+    -- closed-form affinity and overlap of two geometries (`null` when a type has no closed form)
+    let g1 ← getGeom (← fld a "g1")
+    let g2 ← getGeom (← fld a "g2")
+    let tb ← fldRat a "tb"
+    let fb ← fldRat a "fb"
+    if closed g1 && closed g2 then
+      match affinityCF tb fb g1 g2 with
+      | .ok v => return Json.mkObj [("affinity", ratJ v), ("overlap", optJ boolJ (overlapCF tb g1 g2))]
+      | .error e => return raiseJ e
+    else return Json.mkObj [("affinity", Json.null), ("overlap", Json.null)]
+  | "valid_assignment" =>
+    -- the contract of the assignment solver (C07_contract_decidable)
+    return boolJ (Matching.validAssignment (← fldNat a "n") (← fldNat a "m") (← getPairs (← fld a "pairs")))
   | "pair_clips" =>
     let ps ← getNatList (← fld a "predictions")
     let as ← getNatList (← fld a "annotations")
